@@ -353,23 +353,28 @@ def run_case(case):
             # closes that data connection, and the session is lost at a following transfer that
             # reuses the passive listener (no PASV / EPSV, nothing but such transfers in between).
             fi = s0.ops.index(first_f)
-            res = first_f.get("res") or {}
-            o1 = first_f["op"][-1] if isinstance(first_f["op"][-1], dict) else {}
-            # (the dead connection is handed on: a transfer that picks it leaves the connection the
-            # peer then made for it behind, so the loss can also come a few transfers later - as
-            # long as every operation in between is a transfer over the same listener)
-            later = s0.ops[fi + 1 :]
+
+            def reuses(r):
+                return r["op"][0] in ("get", "put") and isinstance(r["op"][-1], dict) and "p" in r["op"][-1] and r["op"][-1]["p"] is None
+
+            def refused_with_dconn(r):
+                # a transfer with the data connection made first, answered 4xx / 5xx without a 1xx mark
+                rr = r.get("res") or {}
+                oo = r["op"][-1] if isinstance(r["op"][-1], dict) else {}
+                return r["op"][0] in ("get", "put") and rr.get("mark") is None and (rr.get("final") or "")[:1] in ("4", "5") and oo.get("c", "before") == "before"
+
+            # (the refused transfer is the faulted operation itself - 451 - or a later one that is
+            # refused with 550 because the faulted operation, a CWD, left the session in another
+            # directory; and the dead connection is handed on: a transfer that picks it leaves the
+            # connection the peer then made for it behind, so the loss can come a few transfers
+            # later - as long as everything in between is a transfer over the same listener)
+            ri = next((n for n in range(fi, len(s0.ops)) if refused_with_dconn(s0.ops[n])), None)
+            later = s0.ops[ri + 1 :] if ri is not None else []
             nxt = later[-1] if later else None
-            if (
-                first_f["op"][0] in ("get", "put")
-                and res.get("mark") is None
-                and res.get("final") == "451"
-                and o1.get("c", "before") == "before"
-                and nxt is not None
-                and all(r["op"][0] in ("get", "put") and isinstance(r["op"][-1], dict) and "p" in r["op"][-1] and r["op"][-1]["p"] is None for r in later)
-            ):
+            if ri is not None and nxt is not None and all(reuses(r) for r in later):
+                first_r = s0.ops[ri]
                 subject = "listener-reuse-after-refused-transfer"
-                detail = f"backend {first_f['fs_faults'][0][0]} failed in the pre-checks of {first_f['op'][1]!r} (451, data connection already made, closed by the peer); the next transfer {nxt['op'][1]!r} over the same listener picked the dead connection: {detail}"
+                detail = f"backend {first_f['fs_faults'][0][0]} failed during {first_f['op'][1]!r}; {first_r['op'][1]!r} was refused with {(first_r.get('res') or {}).get('final')} (data connection already made, closed by the peer); a following transfer over the same listener ({nxt['op'][1]!r}) picked a dead connection: {detail}"
             viol.append({"clause": "session-lost-after-backend-failure", "subject": subject, "detail": detail})
         else:
             pr = [r for r in s0.ops if r["op"][0] in ("cmd", "put", "get")][-3:]
